@@ -233,6 +233,13 @@ def unsupported(h, solver="ScipyIVP"):
     h.holds(f"{solver} on a system with contacts raises or warns", bool(raised) or bool(said), info=f"raised={raised} warnings={cap['warnings'][:2]}")
 
 
+def helper_contract(h, which="plain", n=2, max_iter=2):
+    """the fixed-point helper the step loops rely on, driven by a map that updates its argument IN PLACE (as DualStormerVerlet's step map does):
+    it must not declare convergence because iterate and image share storage (contract of C22, needed here for 'a failed loop raises')"""
+    from checks import c22
+    c22.fixed_point_contract(h, n=n, which=which, max_iter=max_iter, inplace=True)
+
+
 def coverage_extra(cases, results):
     paths = sum(len(R["paths"]) for R in results.values())
     return dict(states=max(1, paths), transitions=max(1, sum(len(R["obls"]) for R in results.values())),
@@ -248,6 +255,8 @@ def cases(tier, seed):
             for cont in (False, True):
                 cs.append(Case(f"{solver}/{system}/cont{int(cont)}", schedule, dict(solver=solver, system=system, cont=cont), timeout=30,
                                max_paths=(256 if tier == "quick" else 2048), max_depth=64, patch=False, sentinel=False, hard=1200))
+    for which in ("plain", "momentum"):
+        cs.append(Case(f"helper/fixed_point_{which}/inplace_map", helper_contract, dict(which=which, n=2, max_iter=2), timeout=60, max_paths=128, sentinel=False))
     for solver in ("ScipyIVP", "ScipyDAE"):
         cs.append(Case(f"unsupported/{solver}", unsupported, dict(solver=solver), timeout=30, patch=False, sentinel=False))
     return cs
